@@ -1169,7 +1169,7 @@ def m_opt_as_ref(eng, st, fr, fn, args, t):
         return None
     v = eng.read_loc(st, a[1], a[2])
     var = _opt_variant(v)
-    mut = fn["name"] == "as_mut"
+    mut = fn["name"] in ("as_mut", "as_deref_mut")
     if var == "None":
         return _ret(st, mk_none())
     if var == "Some":
@@ -1439,9 +1439,19 @@ def m_eq(eng, st, fr, fn, args, t):
         a = eng.pointee_of(st, a)
         b = eng.pointee_of(st, b)
     r = mk_bin("Eq", a, b)
+    if a == b and _reflexive_type(eng, sty):
+        r = mk_bool(True)       # x == x for a type without floats inside (NaN is the only irreflexive value)
     if fn["name"] == "ne":
         r = mk_not(r)
     return _ret(st, r)
+
+
+def _reflexive_type(eng, ty):
+    ty = ty.strip()
+    if ty in ("bool", "char", "usize", "isize", "u8", "u16", "u32", "u64", "u128", "i8", "i16", "i32", "i64", "i128", "str"):
+        return True
+    a = eng.facts.adts.get(ty.split("<")[0])
+    return bool(a) and a["kind"] == "enum" and all(not v["fields"] for v in a["variants"])
 
 
 def m_try_branch(eng, st, fr, fn, args, t):
@@ -1544,6 +1554,9 @@ DEFAULT_MODELS = {
     "core::option::Option::<T>::is_none": m_opt_is_some,
     "core::option::Option::<T>::as_ref": m_opt_as_ref,
     "core::option::Option::<T>::as_mut": m_opt_as_ref,
+    # Option<Box<T>>::as_deref: a reference to the payload; Box deref is the identity projection (m_identity_deref)
+    "core::option::Option::<T>::as_deref": m_opt_as_ref,
+    "core::option::Option::<T>::as_deref_mut": m_opt_as_ref,
     "core::option::Option::<T>::unwrap": m_opt_unwrap,
     "core::option::Option::<T>::expect": m_opt_unwrap,
     "core::option::Option::<T>::unwrap_or": m_opt_unwrap_or,
